@@ -151,6 +151,14 @@ CONTROLS = [
     ('t4-unwrap-locate-no-break', 'T4', 'syn', 'unwrap_locate:first-match', [(API,
         '        let unwrap = || {\n            for x in $n {\n                match x {\n                    $crate::RefNode::Locate(x) => return Some(x),\n                    _ => (),\n                }\n            }\n            None\n        };\n        unwrap()\n',
         '        let mut ret = None;\n        for x in $n {\n            if let $crate::RefNode::Locate(x) = x {\n                ret = Some(x);\n            }\n        }\n        ret\n', 1)]),
+    ('x9-include-gets-initial-table', 'X9', 'syn', 'preprocess_str->preprocess_inner:pre_defines:stale-table', [(PPF,
+        '                    preprocess_inner(\n                        path,\n                        &defines,', '                    preprocess_inner(\n                        path,\n                        pre_defines,', 1)]),
+    ('x16-directive-arm-removed', 'X16', 'syn', 'include-line:enter-test', [(PPF,
+        '            NodeEvent::Enter(RefNode::CompilerDirective(x)) => {\n                let locate: Locate = x.try_into().unwrap();\n                if let Some(last_include_line) = last_include_line {\n                    if last_include_line == locate.line {\n                        return Err(Error::IncludeLine);\n                    }\n                }\n            }\n', '', 1)]),
+    ('x14-default-recorded-trimmed', 'X14', 'syn', 'define-record', [(PPF,
+        '                                let x = String::from(x.str(&s));\n                                Some(x)', '                                let x = String::from(x.str(&s).trim_end());\n                                Some(x)', 1)]),
+    ('w6-public-entry-shortcut', 'W6', 'syn', 'preprocess:result-not-from-string-entry', [(PPF,
+        ') -> Result<(PreprocessedText, Defines), Error> {\n    preprocess_inner(', ') -> Result<(PreprocessedText, Defines), Error> {\n    if path.as_ref().as_os_str().is_empty() {\n        return Ok((PreprocessedText::new(), HashMap::new()));\n    }\n    preprocess_inner(', 1)]),
     ('x11-include-unguarded', 'X11', 'syn', 'open-unguarded', [(PPF, 'NodeEvent::Enter(RefNode::IncludeCompilerDirective(x)) if !ignore_include => {', 'NodeEvent::Enter(RefNode::IncludeCompilerDirective(x)) => {', 1)]),
     ('x12-search-reversed', 'X12', 'syn', 'search-order', [(PPF, '                    for include_path in include_paths {', '                    for include_path in include_paths.iter().rev() {', 1)]),
     ('p2-utf8-error-without-path', 'P2', 'syn', 'read-error', [(PPF, 'Err(Error::ReadUtf8(PathBuf::from(path.as_ref())))', 'Err(Error::ReadUtf8(PathBuf::new()))', 1)]),
@@ -286,6 +294,10 @@ CONTROLS = [
     ('s4-pop-result-observed', 'S4', 'mir', 'observed-by:end_keywords', [(PARSER + 'utils.rs',
         'pub(crate) fn end_keywords() {\n    CURRENT_VERSION.with(|current_version| {\n        current_version.borrow_mut().pop();\n    });\n}',
         'pub(crate) fn end_keywords() -> bool {\n    CURRENT_VERSION.with(|current_version| current_version.borrow_mut().pop().is_some())\n}', 1)]),
+    ('s3-end-keywords-pops-twice', 'S3', 'mir', 'end_keywords:unmodelled-primitive', [(PARSER + 'utils.rs',
+        '        current_version.borrow_mut().pop();\n    });\n}\n\npub(crate) fn current_version()', '        let mut v = current_version.borrow_mut();\n        v.pop();\n        v.pop();\n    });\n}\n\npub(crate) fn current_version()', 1)]),
+    ('s4-version-specifier-not-memoised', 'S4', 'mir', 'effect-not-memoised:version_specifier', [(CD,
+        '#[tracable_parser]\n#[packrat_parser]\npub(crate) fn version_specifier(', '#[tracable_parser]\npub(crate) fn version_specifier(', 1)]),
     ('s5-shared-counter', 'S5', 'mir', 'shared-static', [(PARSER + 'lib.rs', 'fn init() {\n', 'static CALLS: std::sync::atomic::AtomicUsize = std::sync::atomic::AtomicUsize::new(0);\n\nfn init() {\n    CALLS.fetch_add(1, std::sync::atomic::Ordering::Relaxed);\n', 1)]),
     ('s6-parser-called-under-borrow', 'S6', 'mir', 'with-closure-calls-parser', [(PARSER + 'utils.rs',
         'pub(crate) fn in_directive() -> bool {\n    IN_DIRECTIVE.with(|x| x.borrow().last().is_some())', 'pub(crate) fn in_directive() -> bool {\n    IN_DIRECTIVE.with(|x| x.borrow().last().is_some() && current_version().is_none())', 1)]),
